@@ -67,12 +67,13 @@ let down_s (w : Subscribe.world) (d : Subscribe.down) =
   let r = w.Subscribe.w_up d.Subscribe.d_remote in
   let tr = List.sort compare (List.map (fun (u, i) ->
     if int_of_nat u = int_of_nat d.Subscribe.d_remote then si i else "x") d.Subscribe.d_tracks) in
-  Printf.sprintf "%s/%s/%s/%s/%s/%s/%s" (si d.Subscribe.d_id) (si r.Subscribe.uo_owner)
+  Printf.sprintf "%s/%s/%s/%s/%s/%s/%s%s" (si d.Subscribe.d_id) (si r.Subscribe.uo_owner)
     (si r.Subscribe.uo_id)
     (if tr = [] then "-" else String.concat "+" tr)
     (if tr <> [] && d.Subscribe.d_limit then "L" else "-")
     (req_s d.Subscribe.d_req)
     (bs d.Subscribe.d_havelocal)
+    (if d.Subscribe.d_neg then "N" else "")
 
 let obs (w : Subscribe.world) (with_close : bool) =
   let nn = int_of_nat w.Subscribe.w_n in
